@@ -33,13 +33,18 @@ type replParams struct {
 }
 
 type replGen struct {
-	r       *Rand
-	methods []string // defined (by accepted inputs)
-	classes []string
-	consts  []string
-	locals  []string
-	ghosts  []string // uses that refer to things only rejected inputs tried to define
-	n       int
+	r        *Rand
+	methods  []string // defined (by accepted inputs)
+	classes  []string
+	consts   []string
+	locals   []string
+	ghosts   []string // uses that refer to things only rejected inputs tried to define
+	n        int
+	empties  []string // classes without instance variables
+	throwers []string // methods that throw at run time
+	usables  []string // "Module::method" pairs not imported yet
+	methods0 []string // parameterless methods imported with using
+	pool     []int    // input kinds of the session's themes
 }
 
 func (g *replGen) fresh(prefix string) string {
@@ -66,8 +71,94 @@ func (g *replGen) intExpr() string {
 }
 
 // next returns one input and whether it is meant to be rejected
+// themes: each session concentrates on a few kinds of inputs so that multi-step
+// sequences (define, import, reject, use) are likely within ten inputs.
+var replThemes = map[string][]int{
+	"methods":  {0, 1, 2, 3, 4, 5, 17, 18, 19, 20, 25, 26, 29},
+	"classes":  {6, 7, 8, 9, 17, 18, 19, 24, 27},
+	"values":   {10, 11, 12, 13, 14, 15, 16, 17, 18, 19, 20, 21, 22, 28},
+	"ivars":    {30, 30, 31, 32, 33, 34, 31, 33, 17},
+	"circular": {0, 10, 35, 35, 17, 18},
+	"throwers": {36, 36, 37, 38, 37, 12, 13, 17, 18},
+	"using":    {39, 39, 40, 41, 42, 43, 40, 42, 24, 28, 25},
+	"ghosts":   {23, 23, 24, 25, 26, 27, 28, 17},
+}
+
 func (g *replGen) next() string {
-	switch k := g.r.Intn(30); {
+	pool := g.pool
+	if len(pool) == 0 {
+		for k := 0; k < 44; k++ {
+			pool = append(pool, k)
+		}
+	}
+	switch k := pool[g.r.Intn(len(pool))]; {
+	case k == 30:
+		// a class without instance variables
+		c := g.fresh("Ke")
+		g.empties = append(g.empties, c)
+		return fmt.Sprintf("class %s\n  def tag: Int\n    %d\n  end\nend", c, g.r.Range(1, 9))
+	case k == 31 || k == 32:
+		if len(g.empties) > 0 {
+			c := Pick(g.r, g.empties)
+			decl := Pick(g.r, []string{"var @x: Int", "getter x: Int", "var @x: Int?"})
+			// invalid: declares the first instance variable of an existing class, fails elsewhere
+			return fmt.Sprintf("class %s\n  %s\nend\nundefined_function_%d(1)", c, decl, g.n)
+		}
+		return fmt.Sprintf("println \"T:%d:lit\"", g.n)
+	case k == 33:
+		if len(g.empties) > 0 {
+			// valid only if no rejected input leaked a declaration of @x
+			c := Pick(g.r, g.empties)
+			return fmt.Sprintf("class %s\n  var @x: String?\n  def xs: String\n    @x.inspect\n  end\nend", c)
+		}
+		return fmt.Sprintf("println \"T:%d:lit\"", g.n)
+	case k == 34:
+		if len(g.empties) > 0 {
+			// invalid unless a declaration of @x leaked
+			c := Pick(g.r, g.empties)
+			return fmt.Sprintf("class %s\n  def peek%d: Int\n    @x + 1\n  end\nend", c, g.n)
+		}
+		return fmt.Sprintf("println \"T:%d:lit\"", g.n)
+	case k == 35:
+		// invalid: circular reference between a constant and a method
+		c, m := g.fresh("KZ"), g.fresh("cz")
+		g.ghosts = append(g.ghosts, c, m+"()")
+		return fmt.Sprintf("const %s: Int = %s()\ndef %s: Int\n  %s * 5\nend", c, m, m, c)
+	case k == 36:
+		m := g.fresh("thr")
+		g.throwers = append(g.throwers, m)
+		return fmt.Sprintf("def %s(x: Int): Int\n  throw unchecked x\nend", m)
+	case k == 37 || k == 38:
+		if len(g.throwers) > 0 {
+			// runtime error in the middle of an expression: temporaries are on the stack
+			m := Pick(g.r, g.throwers)
+			return Pick(g.r, []string{
+				fmt.Sprintf("println \"T:%d:${1 + %s(%d)}\"", g.n, m, g.r.Range(1, 9)),
+				fmt.Sprintf("zz%d := [1, 2, %s(3)]", g.n, m),
+				fmt.Sprintf("println(%s, %s(4))", g.intExpr(), m),
+			})
+		}
+		return fmt.Sprintf("println \"T:%d:lit\"", g.n)
+	case k == 39:
+		mo := g.fresh("Mo")
+		a, b := g.fresh("ua"), g.fresh("ub")
+		g.usables = append(g.usables, mo+"::"+a, mo+"::"+b)
+		return fmt.Sprintf("module %s\n  def %s: Int\n    %d\n  end\n  def %s: Int\n    %d\n  end\nend", mo, a, g.r.Range(1, 50), b, g.r.Range(51, 99))
+	case k == 40 || k == 41:
+		if len(g.usables) > 0 {
+			i := g.r.Intn(len(g.usables))
+			u := g.usables[i]
+			g.usables = append(g.usables[:i:i], g.usables[i+1:]...)
+			name := u[strings.Index(u, "::")+2:]
+			g.methods0 = append(g.methods0, name)
+			return "using " + u
+		}
+		return fmt.Sprintf("println \"T:%d:lit\"", g.n)
+	case k == 42 || k == 43:
+		if len(g.methods0) > 0 {
+			return fmt.Sprintf("println \"T:%d:${%s()}\"", g.n, Pick(g.r, g.methods0))
+		}
+		return fmt.Sprintf("println \"T:%d:lit\"", g.n)
 	case k < 4:
 		m := g.fresh("m")
 		body := g.intExpr() // before m is known: no self recursion
@@ -157,13 +248,56 @@ func (*c27Engine) Property() string { return "C27" }
 func (*c27Engine) Generate(seed uint64, tier string) *Case {
 	r := NewRand(seed)
 	g := &replGen{r: r}
-	n := r.Range(3, 8)
+	if r.Chance(0.8) {
+		names := []string{"methods", "classes", "values", "ivars", "circular", "throwers", "using", "ghosts"}
+		for i := 0; i < r.Range(1, 3); i++ {
+			g.pool = append(g.pool, replThemes[Pick(r, names)]...)
+		}
+	}
+	n := r.Range(4, 10)
 	if tier == "thorough" {
-		n = r.Range(3, 12)
+		n = r.Range(4, 14)
 	}
 	var p replParams
-	for i := 0; i < n; i++ {
-		p.Inputs = append(p.Inputs, g.next())
+	if r.Chance(0.35) {
+		// scripted skeleton: a multi-step sequence of the kind that exposed a defect
+		// before, with its invalid step drawn at random and random inputs in between
+		invalid := func() string {
+			return Pick(r, []string{
+				"var bad_x: String = 5",
+				fmt.Sprintf("class Kx%d < NoSuchClass\nend", r.Intn(99)),
+				fmt.Sprintf("def bx%d(x: Int): String\n  x\nend", r.Intn(99)),
+				fmt.Sprintf("nl%d := 5\nnl%d.no_such_method", r.Intn(99), r.Intn(99)),
+				fmt.Sprintf("const KQ%d: String = 5", r.Intn(99)),
+				"undefined_function_call(1)",
+			})
+		}
+		var script []string
+		switch r.Intn(6) {
+		case 0:
+			script = []string{"module Foo\n  def ua: Int\n    1\n  end\n  def ub: Int\n    2\n  end\nend", "using Foo::ua", "println \"T:s1:${ua()}\"", invalid(), "using Foo::ub", "println \"T:s2:${ub()}\""}
+		case 1:
+			decl := Pick(r, []string{"var @x: Int", "getter x: Int", "var @x: Int?"})
+			script = []string{"class Kes\n  def tag: Int\n    1\n  end\nend", "class Kes\n  " + decl + "\nend\n" + invalid(), Pick(r, []string{"class Kes\n  var @x: String?\n  def xs: String\n    @x.inspect\n  end\nend", "class Kes\n  def peek: Int\n    @x + 1\n  end\nend"}), "println \"T:s3:${Kes().tag}\""}
+		case 2:
+			script = []string{"sa := 5", invalid(), "println \"T:s4:${sa}\"", "sa = sa + 1", invalid(), "println \"T:s5:${sa}\""}
+		case 3:
+			script = []string{"def sm(x: Int): Int\n  y := x + 2\n  y * 2\nend", "const SK: Int = sm(5)", "sb := 1 + SK", "println \"T:s6:${sb}\""}
+		case 4:
+			script = []string{"println \"T:s7:0\"", "const SFOO: Int = sbar()\ndef sbar: Int\n  SFOO * 5\nend", "println \"T:s8:1\"", "println \"T:s9:2\""}
+		default:
+			script = []string{"def sthr: Int\n  throw unchecked 7\nend", "var sz = 9", "println(1 + sthr())", "var sa2 = 5", "var sb2 = 6", "println \"T:s10:${sa2} ${sb2} ${sz}\""}
+		}
+		for _, step := range script {
+			if r.Chance(0.3) {
+				p.Inputs = append(p.Inputs, g.next())
+			}
+			p.Inputs = append(p.Inputs, step)
+		}
+	} else {
+		for i := 0; i < n; i++ {
+			p.Inputs = append(p.Inputs, g.next())
+		}
 	}
 	// always end with uses of everything that exists
 	p.Inputs = append(p.Inputs, fmt.Sprintf("println \"T:end:${%s}\"", g.intExpr()))
@@ -320,21 +454,66 @@ func (*c27Engine) Execute(t *testing.T, c *Case) *Verdict {
 	v.Nontrivial = nRej > 0 && len(kept) > 0
 	v.Extra = map[string]int64{"inputs": int64(len(p.Inputs)), "rejected_inputs": int64(nRej), "runtime_error_inputs": int64(nErr), "failpoint_armed": b2i(p.FailInput > 0), "failpoint_evaluated": b2i(failFired)}
 	v.Sample = map[string]any{"inputs": p.Inputs, "statuses": statuses(segs), "fail_input": p.FailInput, "fail_eval": p.FailEval}
-	// oracle 1: the session without its rejected inputs
-	if nRej > 0 && len(kept) > 0 {
-		segs2, res2, panic2 := runSession(t, c.Sched, kept, 0, 0)
+	// oracle 1: the session without its rejected inputs. Each rejected input is removed
+	// on its own (an input that is only rejected *because of* an earlier rejected input
+	// must show up as a difference), and all of them together.
+	var rejIdx []int
+	for i, sg := range segs {
+		if sg.Status == "rejected" {
+			rejIdx = append(rejIdx, i)
+		}
+	}
+	var variants [][]int // sets of input indices to drop
+	for _, i := range rejIdx {
+		if len(variants) < 3 {
+			variants = append(variants, []int{i})
+		}
+	}
+	if len(rejIdx) >= 2 {
+		variants = append(variants, rejIdx)
+	}
+	for _, drop := range variants {
+		if len(kept) == 0 {
+			break
+		}
+		dropped := map[int]bool{}
+		for _, i := range drop {
+			dropped[i] = true
+		}
+		var inputs2 []string
+		var idx2 []int
+		for i := range p.Inputs {
+			if i < len(segs) && !dropped[i] {
+				inputs2 = append(inputs2, p.Inputs[i])
+				idx2 = append(idx2, i)
+			}
+		}
+		if len(inputs2) == 0 {
+			continue
+		}
+		// the injected checker failure stays armed for the same input
+		fail2, eval2 := 0, 0
+		for k, i := range idx2 {
+			if p.FailInput == i+1 {
+				fail2, eval2 = k+1, p.FailEval
+			}
+		}
+		segs2, res2, panic2 := runSession(t, c.Sched, inputs2, fail2, eval2)
 		v.Exec++
 		if res2.Outcome != "ok" || panic2 != "" {
 			if res2.Outcome == "harness_panic" {
 				v.Verdict, v.Class, v.Detail = "harness_error", "harness_panic", res2.PanicVal
 				return v
 			}
-			return bad("gopanic", "the session with the rejected inputs removed failed: %s %s %s", res2.Outcome, res2.PanicVal, panic2)
+			return bad("gopanic", "the session with rejected input(s) %v removed failed: %s %s %s", plus1(drop), res2.Outcome, res2.PanicVal, panic2)
 		}
-		for k, i := range keptIdx {
+		for k, i := range idx2 {
+			if k >= len(segs2) {
+				break
+			}
 			a, b := segs[i], segs2[k]
 			if a.Status != b.Status || strings.Join(a.Tokens, "\n") != strings.Join(b.Tokens, "\n") || a.Raw != b.Raw {
-				return bad("trace", "a rejected input left a trace: input %d behaves differently once the rejected inputs are removed from the session\nwith rejected inputs (%s):\n%s\nwithout (%s):\n%s", i+1, a.Status, a.Raw, b.Status, b.Raw)
+				return bad("trace", "a rejected input left a trace: input %d behaves differently once rejected input(s) %v are removed from the session\nwith them (%s):\n%s\nwithout (%s):\n%s", i+1, plus1(drop), a.Status, a.Raw, b.Status, b.Raw)
 			}
 		}
 	}
@@ -392,6 +571,14 @@ func (*c27Engine) Execute(t *testing.T, c *Case) *Verdict {
 		}
 	}
 	return v
+}
+
+func plus1(xs []int) []int {
+	out := make([]int, len(xs))
+	for i, x := range xs {
+		out[i] = x + 1
+	}
+	return out
 }
 
 func statuses(segs []replSeg) []string {
